@@ -207,3 +207,9 @@ META = dict(
     explanation='the real PBN writer is executed symbolically and its text (symbolic characters) is fed to the real PBN parser',
     required_outcomes=['export read back'],
 )
+
+
+def validate(tier):
+    """translator validation: the interpreter in concrete mode against CPython on the functions this check encodes"""
+    from engine import validate as v
+    return v.run(['pbn_files', 'regex_model'], tier)
